@@ -1,6 +1,5 @@
 """Theorem registry: property id -> fully qualified theorem names audited with #print axioms.
 (kept in one file so that the lists can be filled as the Lean modules land)"""
-THEOREMS_C14 = []
 
 THEOREMS_C09 = [
     "C09.buffer_refines_history", "C09.buffer_refines_history_ksa", "C09.buffer_refines_history_executed", "C09.executed_coeff_hyps",
@@ -28,3 +27,27 @@ THEOREMS_C12 = ["C12.fluctuation_dissipation", "C12.ou_invariant", "C12.ou_invar
 THEOREMS_C13 = ["C13.rescale_exact_temperature", "C13.init_velocity_exact_temperature", "C13.zero_temperature_velocities_zero", "C13.linear_momentum_removed",
                 "C13.padding_velocity_counterexample", "C13.padding_velocity_witness", "C13.angular_momentum_removed", "C13.linear_kept", "C13.ke_restored",
                 "C13.masked_padding_stays_zero", "C13.masked_momentum_removed", "C13.zero_com_spec"]
+
+THEOREMS_C02 = ["C02." + t for t in """rot_orthonormal rot_det_one rot_row0 antipodal_frame_frozen antipodal_row0_iff antipodal_row0_ne antipodal_cone_counterexample antipodal_grad_zero
+two_chart_rotation_total two_chart_same_w_on_regular_chart pair_vector_translation_invariant pair_vector_rotation_covariant pppp_transverse_frame_independent pppp_transverse_poly
+pppp_poly projD_of_cols pppp_needs_axial_identity w_elem_frame_independent w_rot_depends_on_row0_only net_force_zero_of_pairwise assemble_unpaired_zero net_torque_zero_of_central""".split()]
+THEOREMS_C01 = ["C01." + t for t in """energy_expansion hf_stationary hf_stationary_P hf_defect_identity energy_affine_in_integrals elecEnergy_model_eq_trace hFromUpper_symm
+core_core_der_is_derivative core_core_der_is_derivative_radial core_core_der_is_derivative_cartesian rotq_grad_is_derivative rotq_grad_is_partial_derivative
+hpp_mismatch_iff hpp_preprocessing_consistent_partial hpp_preprocessing_mismatch_witness hpp_preprocessing_consistent_counterexample padding_force_zero padding_grad_zero_assembled net_force_zero""".split()]
+THEOREMS_C05 = ["C05." + t for t in """compaction_bijection pairs_concat pairs_no_cross pairs_single_vs_batch pairs_of_molecule batch_is_concat_of_alone nocc_single_vs_batch
+padding_independent_close padding_independent_growth maskd_addresses_block maskd_injective maskd_nodup mask_addresses_block mask_injective block_is_atom_pair_submatrix
+block_view_roundtrip pack_unpack unpack_pack pack_symmetric unpack_symmetric same_element_relabel same_element_swap forward_is_run""".split()]
+THEOREMS_C14 = ["C14." + t for t in """etot_eq_eelec_plus_enuc etot_with_excitation hf_identity eiso_atom_formula gap_is_lumo_minus_homo charges_sum_to_molecular_charge charge_of_atom
+dipole_is_charges_plus_hybrid dipole_translation_law dipole_invariant_iff_neutral dipole_charge_eq_sum_of_atomic_charges symmetrizeUpper_symm elec_energy_symmetric_form""".split()]
+THEOREMS_C19 = ["C19." + t for t in """finite_cutoff_exact cutoff_in_distance cutoff_strict default_cutoff_drops_nothing bounded_coordinates_are_close monopole_cancellation monopole_sum_neutral
+klopman_ohno_bounds klopman_ohno_asymptotic""".split()]
+
+THEOREMS_C03 = ["C03." + t for t in """flag_truthful flag_truthful_forward0 flag_truthful_forward1 flag_truthful_forward2 flag_sticky flag_sticky_returned not_converged_reported
+cap_or_all_converged loop_bounded loop_bounded_forward1 stale_dm_error_witness stale_only_when_not_converged converged_implies_fresh unordered_errors_reported_converged
+aufbau_density aufbauP_apply occDiag_mul_self occDiag_trace charges_sum charges_sum_aufbau mixing_preserves_symmetry_trace mixing_idempotency_defect
+mixing_idempotency_defect_convex mixing_idempotency_defect_bound mixing_commutator_defect sp2_range sp2_monotone sp2_fixed_points sp2_order_preserved sp2_is_aufbau
+sp2_degenerate_never_stops sp2_degenerate_never_stops_any_eps sp2_degenerate_hits_cap sp2_padding_stays_empty sp2_capped_terminates sp2_live_bounded
+eigenvalue_le_gershgorin padding_shift_gershgorin padding_multiplier_pos max_iter_value max_iter_tied dm_error_factor_value dm_error_factor_tied dm_element_factor_value
+dm_element_factor_tied diis_factor_value diis_factor_tied model_literals_tied sp2_eps_tied sp2_max_iter_value sp2_max_iter_tied padding_shift_constants""".split()]
+THEOREMS_C04 = ["C04." + t for t in """mixing_fixed_points mixing_alpha_one_all_fixed adaptive_mix_identity_at_fixed_point adaptive_mix_small_trace_counterexample diis_affine
+diis_coefficients_sum_one uhf_singlet_fock_equals_rhf uhf_singlet_one_center_terms same_stopping_rule passed_mono""".split()]
